@@ -157,7 +157,9 @@ def run(tier="quick", mktable=False):
         want = e.get("fail")
         bad = [v for v in vals if v != want]
         if want == "noreturn":
-            bad = vals
+            # the table was built from a body without a return statement (a void function falling off its end, or a path that
+            # does not return at all): an explicit `return;` is the same outcome, only a returned value would differ
+            bad = [v for v in vals if v != "void"]
         # a returned local whose value a helper computed (through an out-parameter) is not a known different value: only
         # constants (and NULL / a recognisable other expression) can contradict the table
         undec = [v for v in bad if re.fullmatch(r"\$L\d+", str(v))]
